@@ -34,7 +34,10 @@ def shards(tier):
 
 
 def gates(c, tier):
-    return [f"generator never produced class {f}" for f in GATE_FEATURES if c.get("feat:" + f, 0) == 0]
+    out = [f"generator never produced class {f}" for f in GATE_FEATURES if c.get("feat:" + f, 0) == 0]
+    if c.get("failed-pack-before-case", 0) == 0:
+        out.append("no failing pack interleaved")
+    return out
 
 
 def _known_ok(a, b):
@@ -170,6 +173,11 @@ def run_shard(ctx: Ctx, acc: Acc):
                 acc.count("string-form-twin-filters")
                 for key, what in check_one(m_abs, b"") + check_one(twin, b""):
                     acc.violation(key + ":after-its-string-form-twin", what, {"message": twin, "trailer": b"", "before": m_abs})
+        if i % 97 == 11:
+            try:
+                av.build(("SearchResultReference", 5, (("ldap://ok", "ldap://\udc80bad"),), ())).pack(sl._messages.PackingOptions())
+            except Exception:
+                acc.count("failed-pack-before-case")
         shared = (i % 3 == 0)
         acc.count("options:shared" if shared else "options:fresh")
         for key, what in check_one(m_abs, trailer, shared):
